@@ -7,6 +7,21 @@ from . import common as C
 ALL = ["C%02d" % i for i in range(1, 19)]
 
 CHECKS = {
+    "C01": dict(
+        technique="TLA+ spec Ledger.tla: TLC exhaustive (MC_Ledger) + trace validation (Trace_Ledger) of every solved LP round "
+                  "of the recorded corpus, supplies taken from the round's inputs",
+        text="Ledger.tla is a physical stock-and-flow machine written from conservation, independent of the LP's constraint "
+             "objects: one Month action per simulated month advances stored food, the crop store, cumulative slaughter and "
+             "meat use, the seaweed biomass ledger and the previous feed total, and its guards are the clauses of C01. Every "
+             "solved round of every corpus run (quick: 13 countries x 7 presets + variations, ~300 rounds, ~36k month-steps; "
+             "thorough: 165 country codes x 12 presets + variations) is replayed through it in limb arithmetic. MC_Ledger "
+             "explores the same actions exhaustively on a 3-month integer grid.",
+        design_ref="5 (C01), Ledger.tla",
+        note="Allocations are LP variable values after the last solve; supplies are consts_for_optimizer / time_consts as "
+             "captured by wrapping Optimizer.optimize_*. Tolerances: 1e-5 relative + 1e-6 per month, 5e-4 + 1e-7 x cumulative "
+             "supply for running totals (need-units). Known findings G1 (meat) and G3 (first-year-only stock) are keyed by "
+             "clause, round kind and stock regime.",
+    ),
     "C06": dict(
         technique="TLA+ spec Herd.tla: TLC exhaustive (MC_Herd, exact rationals) + trace validation of "
                   "animal_populations.main() runs (Trace_Herd, limb fixed point)",
@@ -61,6 +76,18 @@ CHECKS = {
         note="Universe: 3 unit triples (default, ratio, percent) x total/per-month/each-month x 2-3 number patterns, series "
              "of 2 months. Outside the domain (named in the spec): non-ratio scalar x ratio series (the code refuses with "
              "'consider implementing this feature'), two ratios with different suffixes. in_units is covered by C10.",
+    ),
+    "C18": dict(
+        technique="TLA+ spec Handoff.tla: relations FillMin / Retime / Bump; MC_Handoff enumerates small inputs that are run "
+                  "through the real Parameters helpers; Trace_Handoff validates those and every corpus run's hand-offs",
+        text="Handoff.tla states the three hand-offs as input/output relations (sum = min(cap, available), within what was "
+             "eaten, strict priority order; re-timing preserves the total, stays non-negative and at or above round 1; the "
+             "bump never lowers and never raises above demand). MC_Handoff enumerates ~2k (thorough ~9k) integer inputs; the "
+             "real helpers are run on each and the input/output pair must satisfy the relation (checked by TLC in "
+             "Trace_Handoff), as must the hand-off objects captured in every corpus run.",
+        design_ref="5 (C18), Handoff.tla",
+        note="Bump inputs are restricted to charged <= demand (an invariant of its only caller). Inputs the re-timing helper "
+             "refuses by its own assertions are counted, not judged.",
     ),
 }
 
